@@ -152,7 +152,7 @@ def run(eng, rep, tier):
               "the start stack symbol of to_pda is not the grammar's start symbol", summ, site=site_of(prog, fi, fi.node))
     names.check(eng, rep, "C13")
     rep.stats.update(eng.stats())
-    rep.floor = 30
+    rep.floor = 24
 
 
 def interp_eval_alias(ev, node):
